@@ -73,6 +73,12 @@ Theorem C10_meta_codec : forall m rest, meta_ok m -> unmarshal_meta (marshal_met
 Proof. exact meta_codec. Qed.
 Print Assumptions C10_meta_codec.
 
+(* the model's token loop never runs out of fuel, whatever the bytes (its other outcomes are the
+   Go outcomes: value, error, index-out-of-range panic) *)
+Theorem C10_meta_unmarshal_total : forall b, unmarshal_meta b <> UFuel.
+Proof. exact unmarshal_total. Qed.
+Print Assumptions C10_meta_unmarshal_total.
+
 (* the metas payload built by marshalAppendMeta per meta decodes to the metas *)
 Theorem C10_metas_payload_codec : forall ms f,
   Forall meta_ok ms -> Forall (fun m => (N.of_nat (length (marshal_meta m)) < 2 ^ 32)%N) ms ->
